@@ -97,6 +97,18 @@ def serialize(tokens, encoding=None, **opts):
     return out, s
 
 
+def tokenize_raw(text, state="data", last_start_tag=None, cdata=False):
+    """html5lib's tokens as they are emitted (character tokens NOT concatenated; parse-error tokens left out): the granularity a
+    tree builder that makes one text node per token - and the whitespace filter behind it - gets to see."""
+    from html5lib._tokenizer import HTMLTokenizer
+    from html5lib.constants import tokenTypes
+    tok = HTMLTokenizer(text, parser=_StubParser(cdata))
+    tok.state = getattr(tok, _STATE[state])
+    if last_start_tag is not None:
+        tok.currentToken = {"type": tokenTypes["StartTag"], "name": last_start_tag}
+    return [(t["type"], t.get("name"), tuple(t["data"].items()) if isinstance(t.get("data"), dict) else t.get("data")) for t in tok if t["type"] != tokenTypes["ParseError"]]
+
+
 class DispatchLimit(Exception):
     """Raised by parse_bounded when the tree-construction dispatcher was entered more often than the limit."""
 
